@@ -10,8 +10,9 @@ def popped_from_choice(p, calls, v):
     """v = Member::into_identity(Vec::pop(&mut self.choice_buf).Some.0) -> the pop call event, else None"""
     if v[0] == 'call' and v[1] in calls and calls[v[1]]['res'] == 'member::Member::into_identity':
         a = calls[v[1]]['args'][0]
-        if a[0] == 'fieldv' and a[3] == 'Some' and a[1][0] == 'call' and a[1][1] in calls:
-            pc = calls[a[1][1]]
+        opt = q.some_payload(p, a)        # `Some(m) = pop()` or `pop()?`
+        if opt is not None and opt[0] == 'call' and opt[1] in calls:
+            pc = calls[opt[1]]
             if pc['res'] == 'alloc::vec::Vec::pop' and pc['args'][0] == ('ref', CHOICE, True):
                 return pc
     return None
